@@ -270,12 +270,8 @@ theorem normalizeCode_sepOk (s : List Nat) : sepOk (normalizeCode s) = true := b
   exact sepOk_trimRight _ (sepOk_trimLeft _ (sepOk_collapse _ _))
 
 
-def alnumCls : RE := .cls ⟨[(65, 90), (97, 122), (48, 57)], false⟩
-def sepCls : RE := .cls ⟨[(46, 46), (45, 45), (47, 47), (32, 32), (95, 95), (58, 58)], false⟩
-/-- one more block: an optional separator and a run of alphanumerics -/
-def blockRE : RE := .cat (RE.opt sepCls) (RE.plus alnumCls)
-/-- what `^[A-Za-z0-9]+([\.\-\/ _\:]?[A-Za-z0-9]+)*$` compiles to -/
-def codeRE : RE := .cat (RE.plus alnumCls) (.star blockRE)
+/- `alnumCls`, `sepCls`, `blockRE`, `codeRE` (what the `cbc.Code` pattern compiles to) are defined in
+   Model/SchemaLeaves.lean, where the validator models use them. -/
 
 theorem alnum_matches {c : Nat} (h : Leaves.isAlnum c = true) : Matches alnumCls [c] := by
   apply Matches.cls
